@@ -154,7 +154,7 @@ def generate(rng, tier):
     frames = rng.choice([1, 1, 1, 2, 3, 4])
     m = rng.randint(2, hi)
     n = m if rng.random() < 0.4 else rng.randint(2, hi)
-    big = rng.random() < (0.001 if tier == "quick" else 0.003)
+    big = core.rare(rng, 0.001 if tier == "quick" else 0.003, phase=53)
     c = rng.random()
     if c < 0.5:
         m, n = 2 * ((m + 1) // 2), 2 * ((n + 1) // 2)      # even shapes feed the Bayer stage
@@ -231,6 +231,9 @@ def generate(rng, tier):
                                                     "reuse_detector": rng.random() < 0.6,
                                                     "precision0": 64 if rng.random() < 0.85 else 32,
                                                     "frames_np": rng.random() < 0.15,
+                                                    "attr_0d": (rng.sample(["dark", "read_noise", "bias", "fwc", "gain", "t"],
+                                                                           rng.randint(1, 3))
+                                                                if rng.random() < 0.12 else []),
                                                     "bits_form": rng.choice(["int", "int", "int", "int", "np", "float"])},
             "det": det, "img": img, "ops": ops}
 
@@ -327,8 +330,13 @@ def execute(plan):
     def make_det():
         bf = cfg.get("bits_form", "int")
         bits_arg = np.int64(S.bits) if bf == "np" else (float(S.bits) if bf == "float" else S.bits)
-        return D.Detector(dark_current=d["dark"], read_noise=d["read_noise"], bias=d["bias"], fwc=d["fwc"],
-                          conversion_gain=d["gain"], bits=bits_arg, exposure_time=d["t"],
+        a0 = cfg.get("attr_0d") or []
+
+        def form(key):
+            # settings kept as 0-d numpy arrays (what np.asarray / an .npz file / a config loader hands over)
+            return np.array(d[key]) if key in a0 else d[key]
+        return D.Detector(dark_current=form("dark"), read_noise=form("read_noise"), bias=form("bias"), fwc=form("fwc"),
+                          conversion_gain=form("gain"), bits=bits_arg, exposure_time=form("t"),
                           prnu=None if S.prnu is None else S.prnu.copy(),
                           dcnu=None if S.dcnu is None else S.dcnu.copy())
 
@@ -350,14 +358,17 @@ def execute(plan):
         violations.append(v)
 
     # closed-form noise-free signal (pre-quantisation)
-    def ideal(image):
+    def ideal(image, prnu_on_dark=True):
         e = np.asarray(image).astype(np.float64) * d["t"]
         dk = d["dark"] * d["t"]
         if S.dcnu is not None:
             dk = dk * S.dcnu
-        e = e + dk
-        if S.prnu is not None:
-            e = e * S.prnu
+        if S.prnu is not None and not prnu_on_dark:
+            e = e * S.prnu + dk               # the other defensible reading: response map on the photo signal only
+        else:
+            e = e + dk
+            if S.prnu is not None:
+                e = e * S.prnu
         x = np.minimum(e + d["bias"], d["fwc"])
         return x / d["gain"]
 
@@ -440,29 +451,38 @@ def execute(plan):
                         viol("dn-fullwell", stage, got=float(dd[j]), want=[float(want_lo), float(want_hi)],
                              fwc=d["fwc"], gain=d["gain"])
                 bump(probes, "fullwell_pixels_checked")
-        if mode == "off" and sim.total_calls > 0 and not (S.prnu is not None and d["dark"] != 0):
-            c = np.clip(ideal(image), 0, S.cap)
-            c = np.broadcast_to(c, dn.shape)
+        if mode == "off" and sim.total_calls > 0:
+            # with a response map AND dark charge the statement does not say whether the map scales the dark
+            # charge too (the code does, the physics does not): either reading is accepted, as a whole frame
+            readings = [ideal(image)]
+            if S.prnu is not None and d["dark"] != 0:
+                readings.append(ideal(image, prnu_on_dark=False))
             dnf = dn.astype(np.float64)
-            err = np.abs(dnf - c)
             f32 = image.dtype == np.float32 or lowp
-            tol = 1.0 + (4e-7 if f32 else 1e-9) * np.maximum(1.0, np.abs(c))
-            if plan["img"]["exact"] and not (f32 and float(np.abs(image).max()) >= 2 ** 24) and not (
-                    lowp and float(np.abs(c).max()) >= 2 ** 24):
-                # every operation is exact in binary floating point: floor or round, nothing else
-                okx = (dnf == np.floor(c)) | (dnf == np.rint(c))
-                if not bool(np.all(okx)):
-                    j = int(np.argmax(~okx))
-                    viol("dn-exact", stage, got=float(dnf.ravel()[j]), want=float(c.ravel()[j]), exact=True)
-            elif not bool(np.all(err < tol)):
-                j = int(np.argmax(err))
-                viol("dn-exact", stage, got=float(dnf.ravel()[j]), want=float(c.ravel()[j]))
-            raw = np.broadcast_to(ideal(image), dn.shape)
-            sat = raw >= (S.cap + 1) * (1 + (1e-6 if f32 else 0.0))
+            fails = []
+            for raw_r in readings:
+                c = np.clip(raw_r, 0, S.cap)
+                c = np.broadcast_to(c, dn.shape)
+                err = np.abs(dnf - c)
+                tol = 1.0 + (4e-7 if f32 else 1e-9) * np.maximum(1.0, np.abs(c))
+                if plan["img"]["exact"] and not (f32 and float(np.abs(image).max()) >= 2 ** 24) and not (
+                        lowp and float(np.abs(c).max()) >= 2 ** 24):
+                    # every operation is exact in binary floating point: floor or round, nothing else
+                    okx = (dnf == np.floor(c)) | (dnf == np.rint(c))
+                    if not bool(np.all(okx)):
+                        j = int(np.argmax(~okx))
+                        fails.append(dict(got=float(dnf.ravel()[j]), want=float(c.ravel()[j]), exact=True))
+                elif not bool(np.all(err < tol)):
+                    j = int(np.argmax(err))
+                    fails.append(dict(got=float(dnf.ravel()[j]), want=float(c.ravel()[j])))
+            if len(fails) == len(readings):
+                viol("dn-exact", stage, **fails[0])
+            raws = [np.broadcast_to(r, dn.shape) for r in readings]
+            sat = np.logical_and.reduce([r >= (S.cap + 1) * (1 + (1e-6 if f32 else 0.0)) for r in raws])
             if bool(np.any(sat & (dnf != S.cap))):
                 j = int(np.argmax(sat & (dnf != S.cap)))
                 viol("dn-saturated", stage, got=float(dnf.ravel()[j]), want=float(S.cap))
-            neg = raw <= -1
+            neg = np.logical_and.reduce([r <= -1 for r in raws])
             if bool(np.any(neg & (dnf != 0))):
                 viol("dn-exact", stage, note="negative pre-ADC signal must read 0")
         return True
@@ -740,6 +760,21 @@ def _bin_tile(np, D, x, fac, mode, g, viol, bump, probes):
         mag = float(np.abs(xf).sum()) * float(np.abs(y).max()) + 1e-300
         if not abs(lhs - rhs) <= 1e-11 * mag:
             viol("bin-tile-adjoint", "bindown/tile", pair=nm, lhs=lhs, rhs=rhs)
+    # the other spellings of the average mode that the code accepts ('average', 'mean'): a routine may reject
+    # them cleanly, but what it returns under them must be the average-mode answer
+    for syn in ("average", "mean"):
+        try:
+            t2 = np.asarray(D.tile(y.copy(), fac if isinstance(fac, int) else list(fac), scaling=syn))
+            if t2.shape != ta.shape or not np.array_equal(t2, ta):
+                viol("tile-avg", "tile", note="scaling=%r differs from scaling='avg'" % syn)
+        except Exception:
+            pass
+        try:
+            b2 = np.asarray(D.bindown(x, fac if isinstance(fac, int) else list(fac), mode=syn))
+            if b2.shape != ba.shape or not np.array_equal(b2, ba):
+                viol("bin-avg", "bindown", note="mode=%r differs from mode='avg'" % syn)
+        except Exception:
+            pass
     bump(probes, "bin_tile_checked")
     if x.ndim == 3:
         bump(probes, "bin_nd_stack")
@@ -818,7 +853,11 @@ def _bayer(np, B, mos, cfa, viol, bump, probes, name=None):
                                    np.asarray(b).copy(), cfa, output=buf)
         if not (np.array_equal(np.asarray(rec2), mos) and np.array_equal(buf, mos)):
             viol("bayer-roundtrip", "recomposite-output-arg", cfa=cfa)
+        keep_mos = mos.copy()
         de = np.asarray(B.demosaic_deinterlace(mos, cfa))
+        if not np.array_equal(mos, keep_mos):
+            viol("input-mutated", "deinterlace", what="the mosaic passed to demosaic_deinterlace was modified", cfa=cfa)
+            mos[...] = keep_mos
         if de.shape != (mos.shape[0] // 2, mos.shape[1] // 2, 3):
             viol("bayer-native-sites", "deinterlace", note="shape", cfa=cfa)
         else:
@@ -834,7 +873,10 @@ def _bayer(np, B, mos, cfa, viol, bump, probes, name=None):
                         if not np.array_equal(_site(mi[..., ch], S[nm]), _site(mos, S[nm])):
                             viol("bayer-native-sites", "malvar-int", plane=nm, cfa=cfa)
         mf = mos.astype(np.float64)
-        mal = np.asarray(B.demosaic_malvar(mf.copy(), cfa))
+        mine = mf.copy()                      # the caller's own float mosaic, handed over as it is
+        mal = np.asarray(B.demosaic_malvar(mine, cfa))
+        if not np.array_equal(mine, mf):
+            viol("input-mutated", "malvar", what="the mosaic passed to demosaic_malvar was modified", cfa=cfa)
         if mal.shape != (*mos.shape, 3):
             viol("bayer-native-sites", "malvar", note="shape", cfa=cfa)
         else:
